@@ -2,7 +2,11 @@ package main
 
 import (
 	"flag"
+	"io"
 	"sync"
+
+	"github.com/z7zmey/php-parser/pkg/ast"
+	"github.com/z7zmey/php-parser/pkg/visitor/printer"
 )
 
 var wg sync.WaitGroup
@@ -41,5 +45,13 @@ func collector(in <-chan int, out chan<- msg) {
 		var buf []int
 		buf = append(buf, v)
 		out <- msg{items: buf}
+	}
+}
+
+// ok (visitor-per-item): a printer per tree
+func printAll(in <-chan *ast.Root) {
+	for r := range in {
+		p := printer.NewPrinter(io.Discard)
+		r.Accept(p)
 	}
 }
